@@ -272,7 +272,6 @@ func (st *State) sliceAssumes(goal string) map[int]bool {
 
 func (st *State) script(goal string) string {
 	var b strings.Builder
-	b.WriteString(st.eng.prelude())
 	for _, d := range st.decls {
 		b.WriteString(d)
 		b.WriteByte('\n')
@@ -313,7 +312,8 @@ func (st *State) script(goal string) string {
 	b.WriteString("(assert (not ")
 	b.WriteString(goal)
 	b.WriteString("))\n(check-sat)\n(get-model)\n")
-	return b.String()
+	body := b.String()
+	return st.eng.prelude(body) + body
 }
 
 func (st *State) check(kind, label, prop, src, where, goal string) {
